@@ -102,6 +102,10 @@ class Ctx:
             return True
         if z3.is_false(cond):
             return False
+        fmemo = self.__dict__.setdefault("_forked", {})
+        hit = fmemo.get(cond.get_id())
+        if hit is not None:          # the same condition was decided earlier on this path
+            return hit[1]
         self.flush_guards()
         self._next()
         if self.i < len(self.prefix):
@@ -126,6 +130,7 @@ class Ctx:
         self.i += 1
         self.decisions.append(d)
         self.s.add(cond if d else z3.Not(cond))
+        fmemo[cond.get_id()] = (cond, d)
         return d
 
     def pick(self, t):
@@ -135,6 +140,10 @@ class Ctx:
             return t.as_signed_long()
         if z3.is_int_value(t):
             return t.as_long()
+        memo = self.__dict__.setdefault("_picked", {})
+        hit = memo.get(t.get_id())
+        if hit is not None:          # the same term was given a value earlier on this path (a function of the path's history: replays agree)
+            return hit[1]
         self.flush_guards()
         self._next()
         excluded = []
@@ -146,6 +155,7 @@ class Ctx:
                 self.i += 1
                 self.decisions.append(d)
                 self.s.add(t == d[1])
+                memo[t.get_id()] = (t, d[1])
                 return d[1]
             excluded = list(d[1])
         for e in excluded:
@@ -161,6 +171,7 @@ class Ctx:
         self.i += 1
         self.decisions.append(("pick", v))
         self.s.add(t == v)
+        memo[t.get_id()] = (t, v)
         return v
 
     def choose(self, name, n):
